@@ -2,23 +2,23 @@ SPECIFICATION SSpec
 CONSTANTS
   MaxSlot = 9
   MaxVer = 2
-  MaxReorgs = 3
+  MaxReorgs = 4
   MaxCrashes = 1
-  Gates = {}
+  Gates = {"acct"}
   Interleave = FALSE
   Cfgs <- CfgsSmall
   OraclesFor <- SeedOracles
-  MaxAccts = 0
+  MaxAccts = 3
   AnswersFor <- AllAnswers
   Deviation = {}
-  ScenLen = 30
-  Seeds = {1, 2, 3, 4, 5, 6, 7, 8, 9, 10, 11, 12, 13, 14, 15, 16, 17, 18, 19, 20}
+  ScenLen = 34
+  Seeds = {1, 2, 3, 4, 5, 6, 7, 8, 9, 10, 11, 12}
   StartSlots = {0, 1, 2, 3, 4, 5}
   MaxHeads = 2
-  Stimuli = {"Start", "Crash", "Advance", "EpochTick", "Reorg", "HeadEvent", "Fire", "Hold", "Unhold", "Release"}
-  MaxHolds = 99
+  Stimuli = {"Start", "Crash", "Advance", "EpochTick", "Reorg", "HeadEvent", "Fire", "Accounts", "Hold", "Unhold", "Release"}
+  MaxHolds = 2
   Focus = FALSE
-  Disjoint = FALSE
+  Disjoint = TRUE
   Tight = FALSE
 INVARIANTS Emit
 CHECK_DEADLOCK FALSE
